@@ -126,7 +126,7 @@ class C16(core.Check):
         "that scipy interp1d / numpy cumsum compute the same is validated by correspondence (c16.ipoint, c16.ilen at 1e-9)",
         "spline interpolation (scipy make_interp_spline) and scipy.optimize.minimize are oracles: only checked on the "
         "implementation (through points, closest parameter vs. a 1000-point scan, tolerance 1e-6)",
-        "queries for the closest parameter are near the curve (within 5% of the local spacing), away from the seam of closed curves",
+        "queries for the closest parameter are near the curve: spline and analytic curves are asked about points taken off the curve itself (at most 1% of its length away; the spline of unevenly spaced points can be far from their polyline), linear curves also about far points (exact algorithm); away from the seam of closed curves",
     ]
     partial_note = (
         "Theorems cover discrete curves, the polyline arithmetic of all lengths, the linear interpolant and curve edges. "
@@ -194,6 +194,8 @@ class C16(core.Check):
                     "queries": qs,
                 }
             )
+            if rng.random() < 0.3:
+                cases[-1]["alias"] = self._alias(rng)
         for kind in ("linear", "spline"):
             for _ in range(n):
                 k = rng.randint(4 if kind == "spline" else 3, 9)
@@ -211,6 +213,16 @@ class C16(core.Check):
                         "count": rng.randint(2, 20),
                     }
                 )
+                if kind == "linear" and rng.random() < 0.3:
+                    cases[-1]["alias"] = self._alias(rng)
+                if kind == "spline":
+                    g = rng.choice([1.0, 1.0, 1e-2, 1e-3])  # unit size or small (millimetres given in metres)
+                    cases[-1]["points"] = [_mul(g, p) for p in pts]
+                    # "near the curve" means near the spline itself: with uneven spacing it can swing far away from the
+                    # polyline of its points, so the queries are taken off the curve (at most 1 % of its length away)
+                    cases[-1]["queries"] = []
+                    cases[-1]["tq"] = [rng.uniform(0.03, 0.97) for _ in range(4)]
+                    cases[-1]["off"] = [[rng.uniform(-0.01, 0.01) for _ in range(3)] for _ in range(4)]
         for _ in range(n):
             which = rng.choice(["line", "circle", "helix"])
             c: dict = {"kind": "analytic", "curve": which, "count": rng.randint(2, 30)}
@@ -249,7 +261,16 @@ class C16(core.Check):
             else:
                 c["triples"] += [[lo, x, hi]]
             c["tq"] = [rng.uniform(lo + m, hi - m) for _ in range(3)]
-            c["off"] = [[rng.uniform(-0.02, 0.02) for _ in range(3)] for _ in range(3)]
+            c["off"] = [[rng.uniform(-0.02, 0.02) for _ in range(3)] for _ in range(3)]  # fractions of the curve's size
+            # the whole geometry at unit size or small (millimetres given in metres)
+            g = rng.choice([1.0, 1.0, 1e-2, 1e-3])
+            for key in ("p1", "p2", "origin", "rim"):
+                if key in c:
+                    c[key] = _mul(g, c[key])
+            for key in ("r", "h"):
+                if key in c:
+                    c[key] *= g
+            c["size"] = _dist(c["p1"], c["p2"]) if which == "line" else (_dist(c["origin"], c["rim"]) if which == "circle" else c["r"])
             cases.append(c)
         for _ in range(n):
             which = rng.choice(["discrete", "linear", "spline", "circle", "line", "splinedata", "polylinedata"])
@@ -392,6 +413,11 @@ class C16(core.Check):
         return cases
 
     @staticmethod
+    def _alias(rng):
+        """another curve is built from the very same numpy array of points and then moved; the curve under test must not notice"""
+        return {"other": rng.choice(["linear", "spline", "discrete"]), "translate": [rng.uniform(-5, 5) for _ in range(3)]}
+
+    @staticmethod
     def _unit(rng):
         while True:
             v = [rng.gauss(0, 1) for _ in range(3)]
@@ -411,6 +437,19 @@ class C16(core.Check):
         import classy_blocks as cb
 
         which = case.get("curve", case["kind"])
+        if "alias" in case and which in ("discrete", "linear"):
+            # the user's points are one numpy array of floats, given to two curves; the other one is then translated
+            shared = np.array(case["points"], dtype=float)
+            cls = {"linear": cb.LinearInterpolatedCurve, "spline": cb.SplineInterpolatedCurve, "discrete": cb.DiscreteCurve}
+            curve = (
+                cb.DiscreteCurve(shared)
+                if which == "discrete"
+                else cb.LinearInterpolatedCurve(shared, equalize=case.get("equalize", True))
+            )
+            name = case["alias"]["other"]
+            other = cls["linear" if name == "spline" and len(shared) < 4 else name](shared)
+            other.translate(case["alias"]["translate"])
+            return curve
         if which in ("discrete", "splinedata", "polylinedata"):
             return cb.DiscreteCurve(case["points"])
         if which == "linear":
@@ -546,7 +585,13 @@ class C16(core.Check):
             out["full"] = float(curve.length)
         lo, hi = curve.bounds
         if kind == "analytic":
-            queries = [{"near": True, "p": _add(fl(curve.get_point(t)), off)} for t, off in zip(case["tq"], case["off"])]
+            queries = [
+                {"near": True, "p": _add(fl(curve.get_point(t)), _mul(case.get("size", 1.0), off))}
+                for t, off in zip(case["tq"], case["off"])
+            ]
+        elif kind == "spline" and "tq" in case:
+            L = _poly(case["points"])
+            queries = [{"near": True, "p": _add(fl(curve.get_point(t)), _mul(L, off))} for t, off in zip(case["tq"], case["off"])]
         else:
             queries = case["queries"]
         scan = None
@@ -616,6 +661,10 @@ class C16(core.Check):
             seg = _sub(moved[i + 1], moved[i])
             h = _dist(moved[i], moved[i + 1])
             p = _add(_add(moved[i], _mul(q["lam"], seg)), _mul(h, q["off"]))
+            if case["curve"] == "spline":
+                # near the spline itself, not near the polyline of its points (at most 1 % of the length away)
+                tq = min(1.0, (i + q["lam"]) / (len(moved) - 1))
+                p = _add(fl(ref.get_point(tq)), _mul(0.2 * _poly(moved), q["off"]))
             c = fresh()
             t = float(c.get_closest_param(p))
             out["queries"].append({"p": p, "t": t, "d": _dist(fl(c.get_point(t)), p), "scan_min": min(_dist(x, p) for x in scan)})
@@ -1065,7 +1114,7 @@ class C16(core.Check):
             exp = _poly(pts)
             if not abs(impl["full"] - exp) <= tol:
                 bad(f"{cname}.length:polyline", f"length {impl['full']}, polyline through the defining points {exp}", impl["full"], exp)
-        queries = case["queries"] if kind != "analytic" else [{"near": True}] * len(impl["queries"])
+        queries = case["queries"] if kind != "analytic" and "tq" not in case else [{"near": True}] * len(impl["queries"])
         for q, o in zip(queries, impl["queries"]):
             if kind == "discrete":
                 d = [_dist(p, q["p"]) for p in pts]
@@ -1090,7 +1139,9 @@ class C16(core.Check):
     def classify(self, case, impl):
         k = case["kind"]
         if k == "linear":
-            return "linear" if case.get("equalize", True) else "linear:equalize-false"
+            return ("linear" if case.get("equalize", True) else "linear:equalize-false") + (":aliased" if "alias" in case else "")
+        if k == "discrete" and "alias" in case:
+            return "discrete:aliased"
         if k == "tf":
             return "tf:" + case["curve"] + ":" + "+".join(sorted({o[0] for o in case["ops"]})) + ":" + case["mode"]
         if k in ("analytic", "edge", "bad", "edge_hist", "seq"):
